@@ -465,6 +465,13 @@ fn resize_stream<F: Read + Write + Seek>(
 ) -> io::Result<()> {
     let (old_start_sector, old_stream_len) =
         stream_chain_info(minialloc, stream_id)?;
+    // When the stream moves to a new chain (or loses its chain), the old
+    // chain is released only after the directory entry has stopped referring
+    // to it.  Releasing it first would let the new chain reuse its sectors
+    // right away; if a later step then failed, the entry would still point at
+    // the old, by now overwritten, sectors.
+    let mut old_chain_to_free: Option<u32> = None;
+    let mut old_mini_chain_to_free: Option<u32> = None;
     let new_start_sector = if old_start_sector == consts::END_OF_CHAIN {
         // Case 1: The stream has no existing chain.  We will allocate a new
         // chain that is all zeroes.
@@ -493,8 +500,9 @@ fn resize_stream<F: Read + Write + Seek>(
     } else if old_stream_len < consts::MINI_STREAM_CUTOFF as u64 {
         // Case 2: The stream currently exists in a mini chain.
         if new_stream_len == 0 {
-            // Case 2a: The new length is zero.  Free the existing mini chain.
-            minialloc.free_mini_chain(old_start_sector)?;
+            // Case 2a: The new length is zero.  Free the existing mini chain
+            // (below, once the directory entry no longer refers to it).
+            old_mini_chain_to_free = Some(old_start_sector);
             consts::END_OF_CHAIN
         } else if new_stream_len < consts::MINI_STREAM_CUTOFF as u64 {
             // Case 2b: The new length is still small enough to fit in a mini
@@ -516,7 +524,7 @@ fn resize_stream<F: Read + Write + Seek>(
             let mut tmp = vec![0u8; old_stream_len as usize];
             let mut chain = minialloc.open_mini_chain(old_start_sector)?;
             chain.read_exact(&mut tmp)?;
-            chain.free()?;
+            old_mini_chain_to_free = Some(old_start_sector);
             let mut chain = minialloc
                 .open_chain(consts::END_OF_CHAIN, SectorInit::Zero)?;
             chain.write_all(&tmp)?;
@@ -526,8 +534,9 @@ fn resize_stream<F: Read + Write + Seek>(
     } else {
         // Case 3: The stream currently exists in a regular chain.
         if new_stream_len == 0 {
-            // Case 3a: The new length is zero.  Free the existing chain.
-            minialloc.free_chain(old_start_sector)?;
+            // Case 3a: The new length is zero.  Free the existing chain
+            // (below, once the directory entry no longer refers to it).
+            old_chain_to_free = Some(old_start_sector);
             consts::END_OF_CHAIN
         } else if new_stream_len < consts::MINI_STREAM_CUTOFF as u64 {
             // Case 3b: The new length is small enough to fit in a mini chain.
@@ -537,7 +546,7 @@ fn resize_stream<F: Read + Write + Seek>(
             let mut chain =
                 minialloc.open_chain(old_start_sector, SectorInit::Zero)?;
             chain.read_exact(&mut tmp)?;
-            chain.free()?;
+            old_chain_to_free = Some(old_start_sector);
             let mut chain = minialloc.open_mini_chain(consts::END_OF_CHAIN)?;
             chain.write_all(&tmp)?;
             chain.start_sector_id()
@@ -563,7 +572,14 @@ fn resize_stream<F: Read + Write + Seek>(
     minialloc.with_dir_entry_mut(stream_id, |dir_entry| {
         dir_entry.start_sector = new_start_sector;
         dir_entry.stream_len = new_stream_len;
-    })
+    })?;
+    if let Some(start_sector) = old_chain_to_free {
+        minialloc.free_chain(start_sector)?;
+    }
+    if let Some(start_sector) = old_mini_chain_to_free {
+        minialloc.free_mini_chain(start_sector)?;
+    }
+    Ok(())
 }
 
 //===========================================================================//
